@@ -203,6 +203,10 @@ class PDLInterpFunctions(InterpreterFunctions):
         args: tuple[Any, ...],
     ) -> tuple[Any, ...]:
         assert len(args) == 1
+        if isinstance(op.value.type, RangeType):
+            # A range of values has a range of types
+            values = cast(tuple[SSAValue, ...], args[0])
+            return (tuple(value.type for value in values),)
         assert isinstance(args[0], SSAValue)
         value = cast(SSAValue, args[0])
         return (value.type,)
@@ -454,8 +458,14 @@ class PDLInterpFunctions(InterpreterFunctions):
                 f"Could not find op type for name {op_name} in context"
             )
 
-        # Split args into operands, attributes and result types based on operand segments
-        operands = list(args[:num_operands])
+        # Split args into operands, attributes and result types based on operand segments.
+        # Ranges of values and of types are flattened.
+        operands = list[SSAValue]()
+        for operand in args[:num_operands]:
+            if isinstance(operand, SSAValue):
+                operands.append(operand)
+            else:
+                operands.extend(operand)
 
         # If the op is an IRDL-defined operation, get the property names.
         if issubclass(op_type, IRDLOperation):
@@ -473,7 +483,12 @@ class PDLInterpFunctions(InterpreterFunctions):
                 properties[name] = prop_or_attr
             else:
                 attributes[name] = prop_or_attr
-        result_types = list(args[num_operands + num_attributes :])
+        result_types = list[Attribute]()
+        for result_type in args[num_operands + num_attributes :]:
+            if isinstance(result_type, Attribute):
+                result_types.append(result_type)
+            else:
+                result_types.extend(result_type)
 
         # Create the new operation
         result_op = op_type.create(
